@@ -1777,6 +1777,13 @@ func TestUpdate(t *testing.T) {
 	defer r.Write()
 	d := h.StartDriver("drv_upd")
 	defer d.Close()
+	// select the member of the engine family that matches the tree under test (defect flags of C04 / C05 sites)
+	cfgLine, engineFlags := updProbeEngineFlags()
+	if ans := d.Ask(cfgLine); ans != "cfg-ok" {
+		t.Fatalf("driver refused %q: %s", cfgLine, ans)
+	}
+	r.Info["engine_member"] = cfgLine
+	r.Info["engine_flags_probed"] = engineFlags
 	w := newUpdWorld(r, d)
 	defer w.teardown()
 	w.base = h.Baseline()
